@@ -11,7 +11,7 @@ DEFAULT = dict(
     types=ALL_TYPES, min_spines=1, max_spines=4, kern_weight=3, comments=True, global_comments=True, splits=True,
     partial_term=True, chords=True, acc=True, sigs=True, grace=True, rest_in_chord=True, sep_chars=False,
     signatures=True, supported_clefs_only=False, others=True, force_clef=False, max_body=10, max_sub=3, max_width=7,
-    barlines=True, final_barline=True, numbered_bars=False, null_weight=2, interp_rows=True,
+    barlines=True, final_barline=True, numbered_bars=False, null_weight=2, interp_rows=True, rule_iv=True,
 )
 
 PROFILES = {
@@ -20,6 +20,7 @@ PROFILES = {
     'kernonly': dict(types=['**kern']),
     'damage': dict(),
     'sep': dict(sep_chars=True),
+    'chordrest': dict(rule_iv=False),
 }
 
 
@@ -64,7 +65,8 @@ def _types(draw, P):
 def _data_cell(draw, P, typ):
     if typ == KERN:
         return draw(G.kern_data_cells(chords=P['chords'], acc=P['acc'], sigs=P['sigs'], grace=P['grace'],
-                                      rest_in_chord=P['rest_in_chord'], null_weight=P['null_weight']))
+                                      rest_in_chord=P['rest_in_chord'], null_weight=P['null_weight'],
+                                      rule_iv=P['rule_iv']))
     return draw(G.other_data_cells(typ, sep_chars=P['sep_chars']))
 
 
@@ -184,6 +186,15 @@ def _event(draw, P, paths, rows, state):
         r = _join_row(draw, P, paths)
         if r:
             rows.append(r)
+        else:  # nothing to join yet: open a split and (usually) close it again a row later
+            r = _split_row(draw, P, paths)
+            if r:
+                rows.append(r)
+                rows.append(_row([_data_cell(draw, P, paths.typ(k)) for k in range(len(paths.sp))]))
+                if draw(st.integers(0, 2)):
+                    r2 = _join_row(draw, P, paths)
+                    if r2:
+                        rows.append(r2)
     elif x == 19 and P['partial_term']:
         r = _term_row(draw, P, paths)
         if r:
